@@ -32,6 +32,11 @@
 #include <tbox/network/tcp_connection.h>
 #undef private
 #undef protected
+#include <tbox/event/timer_event.h>
+#include <tbox/network/tcp_acceptor.h>
+#include <tbox/network/tcp_client.h>
+#include <tbox/network/tcp_connector.h>
+#include <tbox/network/tcp_server.h>
 
 using namespace tbox;
 using network::BufferedFd;
@@ -291,6 +296,162 @@ static void report(int ret) {
     g_ev.clear(); g_wire_new.clear();
 }
 
+
+// ---------------------------------------------------------------- end-to-end (no interposition)
+// e2e <sc|ac> <n1> <c1> <n2> <c2> <thr> <c|s|h> <sndbuf>
+// A real TcpServer + TcpClient (sc) or TcpAcceptor + TcpConnector (ac, SO_SNDBUF = sndbuf on both
+// connections) over a Unix-domain socket on the real loop.  The client sends gen(11, n1) in chunks of
+// c1 bytes, the server gen(23, n2) in chunks of c2, all queued in the connected callbacks.  The server
+// receives with threshold thr, both sides leave up to 2 bytes unconsumed while more is expected.
+// closer: c = the client closes actively once it has everything and its sends completed, s = the
+// server does, h = the client half-closes (shutdown WR) at that point.
+struct E2ESide {
+    std::vector<uint8_t> got; size_t expect = 0; bool send_done = false; int disc = 0; int presentations = 0;
+};
+static void gen_bytes(uint64_t seed, uint64_t len, std::vector<uint8_t> &out) {
+    out.resize(len);
+    for (uint64_t i = 0; i < len; ++i) out[i] = (uint8_t)((seed + 31 * i + i / 256) % 256);
+}
+static void e2e_take(E2ESide &side, network::Buffer &b) {
+    size_t sz = b.readableSize(), k = sz;
+    ++side.presentations;
+    if (side.got.size() + sz < side.expect) k = sz - (sz < 2 ? sz : 2);      // leave a tail for the next presentation
+    side.got.insert(side.got.end(), b.readableBegin(), b.readableBegin() + k);
+    b.hasRead(k);
+}
+
+static void run_e2e(bool sc, uint64_t n1, uint64_t c1, uint64_t n2, uint64_t c2, uint64_t thr, char closer, uint64_t sndbuf) {
+    using namespace network;
+    std::string path = "/tmp/C06-e2e-" + std::to_string(getpid()) + ".sock";
+    SockAddr addr{DomainSockPath(path)};
+    std::vector<uint8_t> s1, s2; gen_bytes(11, n1, s1); gen_bytes(23, n2, s2);
+    E2ESide srv, cli; srv.expect = n1; cli.expect = n2;
+    srv.send_done = (n2 == 0); cli.send_done = (n1 == 0);
+    bool closing = false, finishing = false;
+    std::string late = "-";
+    event::TimerEvent *fin = g_loop->newTimerEvent("fin");
+    event::TimerEvent *dog = g_loop->newTimerEvent("dog");
+    fin->initialize(std::chrono::milliseconds(40), event::Event::Mode::kOneshot);
+    fin->setCallback([] { g_loop->exitLoop(); });
+    dog->initialize(std::chrono::seconds(20), event::Event::Mode::kOneshot);
+    dog->setCallback([&] { late += "+watchdog"; g_loop->exitLoop(); });
+    dog->enable();
+    auto send_chunks = [](const std::vector<uint8_t> &d, uint64_t c, const std::function<bool(const void *, size_t)> &snd) {
+        for (size_t off = 0; off < d.size(); off += c) snd(d.data() + off, std::min<size_t>(c, d.size() - off));
+    };
+    int want_sdisc = (closer == 's') ? 0 : 1, want_cdisc = (closer == 'c') ? 0 : 1;
+    auto check_finish = [&] {
+        if (!finishing && closing && srv.disc >= want_sdisc && cli.disc >= want_cdisc && srv.got.size() >= n1 && cli.got.size() >= n2) {
+            finishing = true; fin->enable();       // a little longer: a second notification would still be counted
+        }
+    };
+
+    if (sc) {
+        TcpServer server(g_loop); TcpClient client(g_loop);
+        TcpServer::ConnToken tok;
+        std::function<void()> maybe_close = [&] {
+            if (closing) return;
+            if (closer == 's') {
+                if (srv.got.size() == n1 && srv.send_done) {
+                    closing = true;
+                    bool r1 = server.disconnect(tok), r2 = server.disconnect(tok);
+                    late = std::string("sd=") + (r1 ? "1" : "0") + (r2 ? "1" : "0") + " ssend=" + (server.send(tok, "x", 1) ? "1" : "0")
+                         + " valid=" + (server.isClientValid(tok) ? "1" : "0");
+                }
+            } else if (cli.got.size() == n2 && cli.send_done) {
+                closing = true;
+                if (closer == 'c') { client.stop(); late = std::string("csend=") + (client.send("x", 1) ? "1" : "0"); }
+                else late = std::string("shut=") + (client.shutdown(SHUT_WR) ? "1" : "0");
+            }
+            check_finish();
+        };
+        server.initialize(addr, 2);
+        server.setConnectedCallback([&](const TcpServer::ConnToken &t) {
+            tok = t;
+            send_chunks(s2, c2, [&](const void *p, size_t n) { return server.send(t, p, n); });
+        });
+        server.setReceiveCallback([&](const TcpServer::ConnToken &, Buffer &b) { e2e_take(srv, b); maybe_close(); }, thr);
+        server.setSendCompleteCallback([&](const TcpServer::ConnToken &) { srv.send_done = true; maybe_close(); });
+        server.setDisconnectedCallback([&](const TcpServer::ConnToken &t) {
+            ++srv.disc;
+            late += std::string(" svalid=") + (server.isClientValid(t) ? "1" : "0");
+            check_finish();
+        });
+        client.initialize(addr);
+        client.setAutoReconnect(false);
+        client.setConnectedCallback([&] { send_chunks(s1, c1, [&](const void *p, size_t n) { return client.send(p, n); }); maybe_close(); });
+        client.setReceiveCallback([&](Buffer &b) { e2e_take(cli, b); maybe_close(); }, 0);
+        client.setSendCompleteCallback([&] { cli.send_done = true; maybe_close(); });
+        client.setDisconnectedCallback([&] { ++cli.disc; late += std::string(" csend2=") + (client.send("x", 1) ? "1" : "0"); check_finish(); });
+        server.start(); client.start();
+        g_loop->runLoop(event::Loop::Mode::kForever);
+        dog->disable();
+        client.cleanup(); server.cleanup();
+        flush_loop();
+    } else {
+        TcpAcceptor acceptor(g_loop); TcpConnector connector(g_loop);
+        TcpConnection *sconn = nullptr, *cconn = nullptr;
+        std::function<void()> maybe_close = [&] {
+            if (closing || !sconn || !cconn) return;
+            if (closer == 's') {
+                if (srv.got.size() == n1 && srv.send_done) {
+                    closing = true;
+                    bool r1 = sconn->disconnect(), r2 = sconn->disconnect();
+                    late = std::string("sd=") + (r1 ? "1" : "0") + (r2 ? "1" : "0") + " ssend=" + (sconn->send("x", 1) ? "1" : "0")
+                         + " sexp=" + (sconn->isExpired() ? "1" : "0");
+                }
+            } else if (cli.got.size() == n2 && cli.send_done) {
+                closing = true;
+                if (closer == 'c') {
+                    bool r1 = cconn->disconnect(), r2 = cconn->disconnect();
+                    late = std::string("cd=") + (r1 ? "1" : "0") + (r2 ? "1" : "0") + " csend=" + (cconn->send("x", 1) ? "1" : "0");
+                } else late = std::string("shut=") + (cconn->shutdown(SHUT_WR) ? "1" : "0");
+            }
+            check_finish();
+        };
+        acceptor.initialize(addr, 2);
+        acceptor.setNewConnectionCallback([&](TcpConnection *c) {
+            sconn = c;
+            if (sndbuf) c->socketFd().setSendBufferSize((int)sndbuf);
+            c->setReceiveCallback([&](Buffer &b) { e2e_take(srv, b); maybe_close(); }, thr);
+            c->setSendCompleteCallback([&] { srv.send_done = true; maybe_close(); });
+            c->setDisconnectedCallback([&] {
+                ++srv.disc;
+                late += std::string(" sexp=") + (sconn->isExpired() ? "1" : "0") + " ssend2=" + (sconn->send("x", 1) ? "1" : "0");
+                check_finish();
+            });
+            send_chunks(s2, c2, [&](const void *p, size_t n) { return c->send(p, n); });
+            maybe_close();
+        });
+        connector.initialize(addr);
+        connector.setConnectedCallback([&](TcpConnection *c) {
+            cconn = c;
+            if (sndbuf) c->socketFd().setSendBufferSize((int)sndbuf);
+            c->setReceiveCallback([&](Buffer &b) { e2e_take(cli, b); maybe_close(); }, 0);
+            c->setSendCompleteCallback([&] { cli.send_done = true; maybe_close(); });
+            c->setDisconnectedCallback([&] {
+                ++cli.disc;
+                late += std::string(" cexp=") + (cconn->isExpired() ? "1" : "0") + " csend2=" + (cconn->send("x", 1) ? "1" : "0");
+                check_finish();
+            });
+            send_chunks(s1, c1, [&](const void *p, size_t n) { return c->send(p, n); });
+            maybe_close();
+        });
+        acceptor.start(); connector.start();
+        g_loop->runLoop(event::Loop::Mode::kForever);
+        dog->disable();
+        connector.cleanup(); acceptor.cleanup();
+        delete sconn; delete cconn;
+        flush_loop();
+    }
+    dog->disable(); fin->disable();
+    delete dog; delete fin;
+    unlink(path.c_str());
+    std::cout << "P e2e c2s=" << digest(srv.got.data(), srv.got.size()) << " s2c=" << digest(cli.got.data(), cli.got.size())
+              << " sdisc=" << srv.disc << " cdisc=" << cli.disc << " late=" << late << "\n";
+    std::cout << "M e2e spres=" << (srv.presentations > 0) << " cpres=" << (cli.presentations > 0) << "\n";
+}
+
 static void pass(uint32_t mask) {
     g_filter = true; g_mask = mask;
     g_loop->runLoop(event::Loop::Mode::kOnce);
@@ -370,6 +531,20 @@ int main() {
             pass(EPOLLIN | EPOLLHUP | EPOLLERR | EPOLLRDHUP);
         } else if (op == "wr" && w.size() == 1) {
             pass(EPOLLOUT);
+        } else if (op == "rw" && w.size() == 1) {
+            pass(EPOLLIN | EPOLLHUP | EPOLLERR | EPOLLRDHUP | EPOLLOUT);
+        } else if (op == "e2e" && w.size() == 9) {
+            uint64_t n1, c1, n2, c2, thr, sb;
+            bool sc = w[1] == "sc";
+            if ((w[1] != "sc" && w[1] != "ac") || !vh::to_u64(w[2], n1) || !vh::to_u64(w[3], c1) || !vh::to_u64(w[4], n2) || !vh::to_u64(w[5], c2)
+                || !vh::to_u64(w[6], thr) || w[7].size() != 1 || std::string("csh").find(w[7][0]) == std::string::npos || !vh::to_u64(w[8], sb)
+                || c1 == 0 || c2 == 0 || n1 == 0 || n2 == 0 || n1 > 16777216 || n2 > 16777216 || (sc && sb != 0) || (w[7][0] == 's' && thr > 1)) {
+                std::cout << "bad-op\n"; continue;
+            }
+            int saved = g_fd; g_fd = -1;           // no interposition for the end-to-end run
+            run_e2e(sc, n1, c1, n2, c2, thr, w[7][0], sb);
+            g_fd = saved;
+            continue;
         } else ok = false;
         if (!ok) { std::cout << "bad-op\n"; continue; }
         report(ret);
